@@ -306,6 +306,12 @@ def handle_gen(rng, tier):
                         hv = " hv=bad"
             if (l.startswith("http") or l.startswith("fasthttp")) and rng.random() < 0.06:
                 l += rng.choice(["@/other", "@/dns-query/", "@/", "@/dns-query"])
+            elif "-get" in l and rng.random() < 0.12:
+                # the dns pair among other pairs and EMPTY pairs of the query string ("?&dns=..", "?a=b&&dns=..&"): the
+                # first pair whose key is "dns" counts, whatever surrounds it (seed C01-N: the scanner never advanced over
+                # an empty pair)
+                l += "@/dns-query?" + rng.choice(["&", "&&", "a=b&", "a=b&&", "x&", "dns2=zz&", "adns=q&", "ct=application/dns-message&",
+                                                   "a=b&&c=d&", ""]) + "#" + rng.choice(["", "&", "&&", "&x=y", "&dns2=1", "&&z"])
             u = rng.random()
             if u < 0.05:
                 up = "reply:" + gens.hx(gen_reply(rng, name, qtype, qclass, k4=True))
